@@ -782,7 +782,27 @@ def build_library(seed, tier):
         if d["entry"] == "api" and (len(rsteps) >= 2 or any(st["s"] == "touch" for st in d["steps"])) and rsteps:
             keep = [st for i, st in enumerate(d["steps"]) if (st["s"] not in RENDER_KINDS and st["s"] != "touch") or i == rsteps[-1]]
             twins.append(dict(d, id=d["id"] + "~last", steps=keep, twin_of=d["id"]))
-    return lib + twins
+    # sibling variants (solo only, like the twins above): the same script with a SECOND network
+    # built from the first one's reactions and edited / rendered just before the last rendering.
+    # Their last rendering must equal that of the description without the sibling.
+    sibs = []
+    pos = {}
+    for d in base:
+        j = pos.get(d["family"], 0)
+        pos[d["family"]] = j + 1
+        rsteps = [i for i, st in enumerate(d["steps"]) if st["s"] in RENDER_KINDS]
+        if d["entry"] != "api" or not rsteps or (tier == "quick" and j % 2):
+            continue
+        how = ["same_list", "copy"][(j // 2) % 2] if tier == "quick" else None
+        for h in ([how] if how else ["same_list", "copy"]):
+            ins = [{"s": "sib_new", "how": h}, {"s": "sib_rm"}, {"s": "sib_add"}]
+            if j % 3 == 0:
+                ins.append({"s": "sib_render", "solver": "cvode", "method": "sparse", "device": "cpu"})
+            if j % 3 == 1:
+                ins.append({"s": "sib_allowed"})
+            steps = d["steps"][:rsteps[-1]] + ins + d["steps"][rsteps[-1]:]
+            sibs.append(dict(d, id=f"{d['id']}~sib-{h}", steps=steps, twin_of=d["id"], twin_kind="sibling"))
+    return lib + twins + sibs
 
 
 RENDER_KINDS = ("render", "to_code", "cli_render", "export")
